@@ -1131,6 +1131,7 @@ func (dsc *dataStoreCommand) newListUnlocked(keyName string) (list *storeList) {
 }
 
 func (dsc *dataStoreCommand) lpushUnlocked(keyName string, list *storeList, element []byte) {
+	simYield("list.lpush")
 	item := listItem{
 		next:    list.head,
 		element: element,
@@ -1193,6 +1194,7 @@ func (dsc *dataStoreCommand) lpushx(keyName string, values [][]byte) (output res
 }
 
 func (dsc *dataStoreCommand) lpopUnlocked(keyName string, list *storeList, item *listItem) {
+	simYield("list.lpop")
 	list.head = item.next
 	if list.head == nil {
 		list.tail = nil
@@ -1236,6 +1238,7 @@ func (dsc *dataStoreCommand) lpop(keyName string, count int) (values [][]byte, e
 }
 
 func (dsc *dataStoreCommand) rpushUnlocked(keyName string, list *storeList, element []byte) {
+	simYield("list.rpush")
 	item := listItem{
 		prev:    list.tail,
 		element: element,
@@ -1298,6 +1301,7 @@ func (dsc *dataStoreCommand) rpushx(keyName string, values [][]byte) (output res
 }
 
 func (dsc *dataStoreCommand) rpopUnlocked(keyName string, list *storeList, item *listItem) {
+	simYield("list.rpop")
 	list.tail = item.prev
 	if list.tail == nil {
 		list.head = nil
@@ -1678,6 +1682,7 @@ func (dsc *dataStoreCommand) lpos(keyName string, element string, forward bool, 
 }
 
 func (dsc *dataStoreCommand) removeUnlocked(keyName string, list *storeList, item *listItem) {
+	simYield("list.remove")
 	if item.prev != nil {
 		item.prev.next = item.next
 	} else {
